@@ -33,11 +33,11 @@ import (
 type sxVal interface{ key() string }
 
 type (
-	sxConst   struct{ c *ssa.Const }
-	sxParam   struct{ p *ssa.Parameter }
-	sxFreeVar struct{ v *ssa.FreeVar }
-	sxGlobal  struct{ g *ssa.Global } // address of a package-level variable
-	sxAlloc   struct{ a *ssa.Alloc }  // address of a local cell
+	sxConst     struct{ c *ssa.Const }
+	sxParam     struct{ p *ssa.Parameter }
+	sxFreeVar   struct{ v *ssa.FreeVar }
+	sxGlobal    struct{ g *ssa.Global } // address of a package-level variable
+	sxAlloc     struct{ a *ssa.Alloc }  // address of a local cell
 	sxFieldAddr struct {
 		base  sxVal
 		field int
@@ -85,9 +85,9 @@ func (v sxConst) key() string {
 	}
 	return "const:" + v.c.Value.ExactString()
 }
-func (v sxParam) key() string     { return "param:" + v.p.Name() }
-func (v sxFreeVar) key() string   { return "freevar:" + v.v.Name() }
-func (v sxGlobal) key() string    { return "&" + short(v.g.Pkg.Pkg.Path()) + "." + v.g.Name() }
+func (v sxParam) key() string   { return "param:" + v.p.Name() }
+func (v sxFreeVar) key() string { return "freevar:" + v.v.Name() }
+func (v sxGlobal) key() string  { return "&" + short(v.g.Pkg.Pkg.Path()) + "." + v.g.Name() }
 func (v sxAlloc) key() string {
 	return "&local:" + v.a.Parent().Name() + "." + v.a.Name() + "(" + v.a.Comment + ")"
 }
@@ -105,7 +105,7 @@ func (v sxTuple) key() string {
 	}
 	return "tuple(" + strings.Join(parts, ",") + ")"
 }
-func (v sxUnknown) key() string   { return fmt.Sprintf("unknown%d:%s", v.id, v.why) }
+func (v sxUnknown) key() string { return fmt.Sprintf("unknown%d:%s", v.id, v.why) }
 func (v sxStruct) key() string {
 	var ks []int
 	for k := range v.fields {
@@ -211,8 +211,12 @@ func sxEqKey(a, b sxVal) string {
 
 var sxNil = sxConst{c: &ssa.Const{}}
 
-func sxStr(s string) sxVal { return sxConst{c: ssa.NewConst(constant.MakeString(s), types.Typ[types.String])} }
-func sxInt(n int64) sxVal  { return sxConst{c: ssa.NewConst(constant.MakeInt64(n), types.Typ[types.Int])} }
+func sxStr(s string) sxVal {
+	return sxConst{c: ssa.NewConst(constant.MakeString(s), types.Typ[types.String])}
+}
+func sxInt(n int64) sxVal {
+	return sxConst{c: ssa.NewConst(constant.MakeInt64(n), types.Typ[types.Int])}
+}
 
 // KnownEq: (a == b) is known true/false among the first n facts.
 func (p *sxPath) KnownEq(n int, a, b sxVal) (val, known bool) {
@@ -598,9 +602,58 @@ func sxImpliedBy(s *sxState, key string, val bool) []sxFact {
 	return nil
 }
 
+// sxHelper: functions that are executed in place: function literals and
+// unexported functions/methods.
+func sxHelper(g *ssa.Function) bool { return g.Parent() != nil || !token.IsExported(g.Name()) }
+
 // sxCondKey canonicalises a branch condition: returns the fact key of the
 // positive form, whether the condition is its negation, or a constant.
 func sxCondKey(c sxVal) (key string, neg bool, isConst bool, cval bool) {
+	intOf := func(v sxVal) (int64, bool) {
+		k, ok := v.(sxConst)
+		if !ok || k.c.Value == nil || k.c.Value.Kind() != constant.Int {
+			return 0, false
+		}
+		n, exact := constant.Int64Val(k.c.Value)
+		return n, exact
+	}
+	nonNeg := func(v sxVal) bool { // len / cap terms
+		op, ok := v.(sxOp)
+		return ok && (op.op == "len" || op.op == "strlen" || op.op == "cap")
+	}
+	eq := func(a, b sxVal, neg bool) (string, bool, bool, bool) {
+		// len(s) == 0 of a string is s == ""
+		for i := 0; i < 2; i++ {
+			if op, ok := a.(sxOp); ok && op.op == "strlen" {
+				if n, isInt := intOf(b); isInt {
+					if n == 0 {
+						a, b = op.args[0], sxStr("")
+					} else if n < 0 {
+						return "", false, true, neg
+					}
+				}
+			}
+			a, b = b, a
+		}
+		if n, isInt := intOf(b); isInt && n < 0 && nonNeg(a) {
+			return "", false, true, neg
+		}
+		if n, isInt := intOf(a); isInt && n < 0 && nonNeg(b) {
+			return "", false, true, neg
+		}
+		ca, okA := a.(sxConst)
+		cb, okB := b.(sxConst)
+		if okA && okB {
+			return "", false, true, (ca.key() == cb.key()) != neg
+		}
+		if sxSame(a, b) {
+			return "", false, true, !neg
+		}
+		if (sxSame(a, sxNil) && sxKnownNonNil(b)) || (sxSame(b, sxNil) && sxKnownNonNil(a)) {
+			return "", false, true, neg
+		}
+		return sxEqKey(a, b), neg, false, false
+	}
 	for {
 		switch u := c.(type) {
 		case sxConst:
@@ -616,19 +669,39 @@ func sxCondKey(c sxVal) (key string, neg bool, isConst bool, cval bool) {
 				if u.op == "!=" {
 					neg = !neg
 				}
-				a, b := u.args[0], u.args[1]
-				ca, okA := a.(sxConst)
-				cb, okB := b.(sxConst)
-				if okA && okB {
-					return "", false, true, (ca.key() == cb.key()) != neg
+				return eq(u.args[0], u.args[1], neg)
+			case "<", ">", "<=", ">=":
+				// canonical form  lo < hi  (possibly negated)
+				lo, hi := u.args[0], u.args[1]
+				switch u.op {
+				case ">":
+					lo, hi = hi, lo
+				case "<=": // a <= b  ⇔  !(b < a)
+					lo, hi, neg = hi, lo, !neg
+				case ">=": // a >= b  ⇔  !(a < b)
+					neg = !neg
 				}
-				if sxSame(a, b) {
-					return "", false, true, !neg
+				nl, okL := intOf(lo)
+				nh, okH := intOf(hi)
+				switch {
+				case okL && okH:
+					return "", false, true, (nl < nh) != neg
+				case okH && nonNeg(lo): // len < k
+					if nh <= 0 {
+						return "", false, true, neg
+					}
+					if nh == 1 { // len < 1  ⇔  len == 0
+						return eq(lo, sxInt(0), neg)
+					}
+				case okL && nonNeg(hi): // k < len
+					if nl < 0 {
+						return "", false, true, !neg
+					}
+					if nl == 0 { // 0 < len  ⇔  len != 0
+						return eq(hi, sxInt(0), !neg)
+					}
 				}
-				if (sxSame(a, sxNil) && sxKnownNonNil(b)) || (sxSame(b, sxNil) && sxKnownNonNil(a)) {
-					return "", false, true, neg
-				}
-				return sxEqKey(a, b), neg, false, false
+				return "<(" + lo.key() + "," + hi.key() + ")", neg, false, false
 			}
 		}
 		return c.key(), neg, false, false
@@ -944,6 +1017,9 @@ func (s *sxState) call(c ssa.CallInstruction, deferred bool) sxVal {
 					return sxInt(arr.Len()) // length of a slice literal
 				}
 			}
+		}
+		if b.Name() == "len" && isStringType(cc.Args[0].Type()) {
+			return sxOp{"strlen", []sxVal{arg}}
 		}
 		return sxOp{b.Name(), []sxVal{arg}}
 	}
